@@ -1,1 +1,42 @@
-From Coq Require Import ZArith.
+(* C07 — Rendering directly equals rendering via encode+decode; selectors agree.  PARTIAL.
+   Proved (proofs/SelProofs.v): for every call sequence, after every prefix, an Encoder that accepted the
+   calls holds the same CSEL and NSEL as a Renderer fed the same calls (both follow the decoding machine's
+   selector updates, sel_step), its read-back methods return them, and the generator's gradient helpers —
+   which depend on the destination only through those read-backs — therefore emit the same calls or the
+   same error into either destination.  DestinationLogger forwards every call unchanged (checked by the
+   correspondence run through the logger).
+   Not yet a theorem: "same rasteriser activity up to quantisation", which is the round-trip theorem of
+   C01 composed with the determinism of the Renderer; the correspondence run compares the two pipelines'
+   rasteriser logs on every case (identical for exactly representable input). *)
+From Coq Require Import ZArith Bool List.
+From IVG Require Import SF NumCodec Color Calls Encoder Render Arc RenderProofs Generator SelProofs.
+Import ListNotations.
+Local Open Scope Z_scope.
+
+Theorem renderer_selectors_follow_machine : forall s c, rsel (rstep32 s c) = sel_step (rsel s) c.
+Proof. exact SelProofs.rend_sel. Qed.
+Print Assumptions renderer_selectors_follow_machine.
+
+Theorem encoder_selectors_follow_machine : forall e c, has_err (enc_step e c) = false ->
+  esel (enc_step e c) = sel_step (esel e) c.
+Proof. exact SelProofs.enc_sel. Qed.
+Print Assumptions encoder_selectors_follow_machine.
+
+Theorem selectors_agree : forall l e s, agree e s -> agree (fold_left enc_step l e) (rrun32 s l).
+Proof. exact SelProofs.selectors_agree. Qed.
+Print Assumptions selectors_agree.
+
+Theorem readback_is_selector : forall e,
+  snd (enc_act e AReadCSel) = OSel (e_csel e) /\ snd (enc_act e AReadNSel) = OSel (e_nsel e).
+Proof. exact SelProofs.readback_is_selector. Qed.
+Print Assumptions readback_is_selector.
+
+Theorem helpers_same_calls : forall e s sh sp stops tr, esel e = rsel s ->
+  set_gradient (e_csel e) (e_nsel e) sh sp stops tr = set_gradient (r_csel s) (r_nsel s) sh sp stops tr.
+Proof. exact SelProofs.helpers_same_calls. Qed.
+Print Assumptions helpers_same_calls.
+
+(* the failing history of the repaired defect: SetCSel 63 then 12 incrementing writes *)
+Example ex_wrap :
+  esel (fold_left enc_step (CSetCSel 63 :: repeat (CSetCReg 0 true (CRGBA (mkRGBA 0 0 0 255))) 12) (enc_reset default_viewbox default_palette)) = (11, 0).
+Proof. vm_compute. reflexivity. Qed.
